@@ -348,6 +348,8 @@ class Prov:
         cn = callee_name(e)
         if isinstance(e.func, ast.Attribute):
             out |= self._ext(T(e.func.value), f"call:{cn}")
+            if cn in ("get", "pop", "setdefault") and e.args and not isinstance(e.args[0], ast.Starred):
+                out |= self._ext(T(e.args[0]), "askey")     # d.get(k): k is the key that selects the value (like d[k])
         for i, a in enumerate(e.args):
             out |= self._ext(T(a), f"arg{i}:{cn}")
         for k in e.keywords:
